@@ -47,8 +47,19 @@ pub fn run<A: Cx>(d: &mut Drv<A>, scale: usize) {
                         if byte_entry {
                             t[pos] = 0x80 + d.rng.below(128) as u8;
                         } else {
-                            // a whole multi-byte character so the text stays valid UTF-8
-                            let ch = *d.rng.pick(&["é", "Ж", "€", "🧬"]);
+                            // a whole multi-byte character so the text stays valid UTF-8; half of the time
+                            // one whose code point, cut to 8 or 7 bits, would be a symbol character
+                            let alias = *d.rng.pick(A::ALPHABET) as u32;
+                            let ch: String = match d.rng.below(8) {
+                                0 => "é".into(),
+                                1 => "Ж".into(),
+                                2 => "€".into(),
+                                3 => "🧬".into(),
+                                4 => char::from_u32(0x100 + alias).unwrap().to_string(),
+                                5 => char::from_u32(0x10000 + alias).unwrap().to_string(),
+                                6 => char::from_u32(0x80 + alias).unwrap().to_string(),
+                                _ => char::from_u32(0xFF00 + alias).unwrap().to_string(),
+                            };
                             let mut u = t[..pos].to_vec();
                             u.extend_from_slice(ch.as_bytes());
                             u.extend_from_slice(&t[pos + 1..]);
